@@ -392,7 +392,9 @@ func c16More(c *Ctx) {
 	c.Rule("C16.R2", "close-once and no send after close: every close of a field channel in tubes and common is protected by an election idiom (won CAS/Swap on the same object, state test + assignment under the object's lock, select-default under a lock, once-per-object goroutine); every send on sender.sendQueue / prioritySendQueue is dominated by the sender's closed flag found false (E5 + E1)")
 	c.Rule("C16.R4", "shutdown order: Muxer.Stop starts the tube closes before publishing the stopping state, closes the queues only after wg.Wait(), and the fallback closes the transport before forcing tubes; enterClosedState marks the tube closed before closing the sender and releases r.l while it waits for the send goroutine; Reliable.Write fails once the tube is closed (E1 order)")
 	c.Rule("C16.R5", "the sender is armed only together with its goroutine: sender.closed is set to false only on paths that start the send goroutine before returning or releasing r.l (otherwise enterClosedState waits forever for a sendDone that nobody will close) (E1 pairing)")
+	c.Rule("C16.R6", "buffered data survives the close: receiver.buffer is appended to only by processIntoBuffer, consumed only by the receiver's read function, never reset, truncated, exposed or replaced (its bytes were acknowledged to the peer; after a local close reads return them and then end-of-stream) (E4 who-may-call, classified by method)")
 	closeOnceRule(c, "C16.R2", []string{"tubes", "common"}, 15)
+	recvBufferOwners(c, "C16.R6")
 
 	// sends on the sender's queues
 	fSQ := P.Field("tubes", "sender", "sendQueue")
@@ -849,4 +851,74 @@ func factExcludes(k atomKey, val bool, subject ssa.Value, assigned ssa.Value) bo
 		return c1 != v
 	}
 	return c1 == v
+}
+
+// recvBufferOwners (C16.R6, shared as C08.R7): the reassembled stream has one producer and one consumer.
+// Bytes in receiver.buffer were acknowledged to the peer, which has dropped its copy; they leave the
+// buffer only by being read. Every method call on that bytes.Buffer in the module is classified:
+//
+//	appending (Write*, ReadFrom)                      only in processIntoBuffer
+//	consuming (Read*, Next, WriteTo)                  only in the receiver's read function
+//	discarding / exposing (Reset, Truncate, Bytes)    nowhere
+//	observing (Len, Cap, String, Available, Grow)     anywhere
+//
+// and the field itself is stored only where the receiver is constructed.
+func recvBufferOwners(c *Ctx, rule string) {
+	P := c.P
+	fBuf := P.Field("tubes", "receiver", "buffer")
+	producer := P.Func("tubes", "(*receiver).processIntoBuffer")
+	consumer := P.Func("tubes", "(*receiver).read")
+	if fBuf == nil || producer == nil || consumer == nil {
+		c.Undecided(rule, "tubes.receiver.buffer", "field, processIntoBuffer or read not found")
+		return
+	}
+	class := map[string]string{
+		"Write": "append", "WriteByte": "append", "WriteRune": "append", "WriteString": "append", "ReadFrom": "append",
+		"Read": "consume", "ReadByte": "consume", "ReadBytes": "consume", "ReadRune": "consume", "ReadString": "consume", "Next": "consume", "WriteTo": "consume",
+		"Reset": "discard", "Truncate": "discard", "Bytes": "discard", "UnreadByte": "discard", "UnreadRune": "discard", "AvailableBuffer": "discard",
+		"Len": "observe", "Cap": "observe", "String": "observe", "Available": "observe", "Grow": "observe",
+	}
+	n := 0
+	cnt := map[string]int{}
+	for _, f := range P.ModuleFuncs() {
+		if f.Pkg == nil || f.Blocks == nil {
+			continue
+		}
+		eachInstr(f, func(ins ssa.Instruction) {
+			switch x := ins.(type) {
+			case *ssa.Store:
+				fa, ok := x.Addr.(*ssa.FieldAddr)
+				if !ok || fieldOf(fa.X.Type(), fa.Field) != fBuf {
+					return
+				}
+				n++
+				cnt[FuncName(f)+"#store"]++
+				cons := fmt.Sprintf("%s#buffer-store%d", FuncName(f), cnt[FuncName(f)+"#store"])
+				// constructing: the receiver object was allocated in this function
+				root, _ := accessPath(fa.X)
+				_, fresh := lookThrough(root).(*ssa.Alloc)
+				c.Check(fresh, rule, cons, P.InstrPos(ins), "set where the receiver is constructed", "the receive buffer of an existing receiver is replaced: bytes that were acknowledged but not yet read are lost")
+			case *ssa.Call:
+				fn := calleeFunc(&x.Call)
+				if fn == nil || x.Call.IsInvoke() || len(x.Call.Args) == 0 || lastField(x.Call.Args[0]) != fBuf {
+					return
+				}
+				n++
+				key := FuncName(f) + "#" + fn.Name()
+				cnt[key]++
+				cons := fmt.Sprintf("%s#buffer.%s%d", FuncName(f), fn.Name(), cnt[key])
+				switch class[fn.Name()] {
+				case "observe":
+					c.OK(rule, cons, P.InstrPos(ins), "observes the buffer")
+				case "append":
+					c.Check(P.OwnedBy(f, producer), rule, cons, P.InstrPos(ins), "appended by the in-order producer", "bytes are appended to the receive buffer outside processIntoBuffer: the stream the application reads is no longer the in-order reassembly")
+				case "consume":
+					c.Check(P.OwnedBy(f, consumer), rule, cons, P.InstrPos(ins), "consumed by the reader", "bytes are taken out of the receive buffer outside the receiver's read function: they were acknowledged to the peer and never reach the application")
+				default:
+					c.Fail(rule, cons, P.InstrPos(ins), fmt.Sprintf("the receive buffer is discarded or exposed (%s) outside reading: bytes that were acknowledged to the peer but not yet read are lost (after a local close reads must still return the buffered data before end-of-stream)", fn.Name()))
+				}
+			}
+		})
+	}
+	c.Floor(rule, "uses of receiver.buffer", n, 4)
 }
